@@ -127,7 +127,8 @@ reg = {
         # the copy-on-write step and the branch disposition of the B-tree mutator
         "cow": {"overlay": "units/cow.ovl", "canaries": ["canary_cow"],
                 "helpers": ["drop", "get_page_number", "new", "child_page", "child_checksum", "count_children", "write_child_page", "memory_mut",
-                            "uncommitted", "get_page_mut", "push_all", "replace_child", "build", "to_single_child", "required_bytes", "into_parts"]},
+                            "uncommitted", "get_page_mut", "push_all", "replace_child", "build", "to_single_child", "required_bytes", "into_parts",
+                            "conditional_free", "get_page_size", "push_all_except_deleted"]},
         # the root update after a deletion, and MutateHelper::delete_key
         "rootupd": {"overlay": "units/rootupd.ovl", "canaries": ["canary_rootupd"],
                     "helpers": ["get_page_number", "get_page", "new", "num_pairs", "build", "push_child", "push_key", "push_all_except_deleted", "delete_helper"]},
@@ -260,7 +261,7 @@ P["C12"] = {
 P["C10"] = {
     "level": "proof",
     "verus": [{"unit": "merkle", "functions": ["RawBtree::verify_checksum", "RawBtree::verify_checksum_helper"]},
-              {"unit": "cow", "functions": ["MutateHelper::replace_branch_child", "MutateHelper::finalize_branch_builder"]},
+              {"unit": "cow", "functions": ["MutateHelper::replace_branch_child", "MutateHelper::finalize_branch_builder", "MutateHelper::apply_subtree_result", "MutateHelper::rebuild_partial_leaf_child"]},
               {"unit": "search", "functions": ["BranchAccessor::child_for_key", "LeafAccessor::position"]},
               {"unit": "rootupd", "functions": ["MutateHelper::finish_deletion", "MutateHelper::delete_key"]}],
     "kani": [K["C10-F1"], K["C10-F2"], K["C10-F3"], K["C10-F4"], K["C10-F6a"], alias("C11-R3", "C10-F6b"), alias("C06-K2", "C10-F6c"),
@@ -289,10 +290,11 @@ P["C06"] = {
                                               "InMemoryState::allocate_helper_retry", "TransactionalMemory::free_helper", "TransactionalMemory::free", "TransactionalMemory::free_if_unpersisted",
                                               "TransactionalMemory::claim_unpersisted", "PageAllocator::*", "Mutex::lock", "lemma_*"]},
               {"unit": "tabledel", "functions": ["TableTreeMut::delete_table_core"]},
-              {"unit": "cow", "functions": ["MutateHelper::replace_branch_child"]}],
+              {"unit": "cow", "functions": ["MutateHelper::replace_branch_child", "MutateHelper::conditional_free", "MutateHelper::apply_subtree_result",
+                                            "MutateHelper::rebuild_partial_leaf_child", "MutateHelper::finalize_branch_builder"]}],
     "kani": [K["C06-K1"], K["C06-K2"], alias("C10-F6a", "C06-K1b")],
     "native": [dict(NATIVE["X-unp3"], id="C06-X-unp3"), dict(NATIVE["X-unp4"], id="C06-X-unp4"), dict(NATIVE["X-pins3"], id="C06-X-pins3"), dict(NATIVE["X-pins4"], id="C06-X-pins4")],
-    "explanation": "Kernel: no block is handed out twice (alloc returns a subset of the free set and removes exactly it - shared with C14); freed-page records are keyed (transaction, page) lexicographically so the reclaimer's range ..(free_until, 0) can never contain a record of a transaction >= free_until; the page-list record returns what was stored; the REAL free_if_unpersisted releases a page at once only when it is in the unpersisted set (allocated by a non-durable commit, so no durable root names it), removes it from that set together with the release, and otherwise changes nothing; the REAL MutateHelper::replace_branch_child never writes to a page this transaction did not allocate (a committed page, which a reader or a savepoint may still see, is copied instead); the REAL PageAllocator::conditional_free / free_if_uncommitted release a page at once only when this transaction allocated it since its last commit (no committed root can name it) and otherwise queue it, exactly once, for the commit without touching the allocator; free_helper (whole function) makes exactly the block's pages free in its region and touches neither the header, nor another region, nor the storage.",
+    "explanation": "Kernel: no block is handed out twice (alloc returns a subset of the free set and removes exactly it - shared with C14); freed-page records are keyed (transaction, page) lexicographically so the reclaimer's range ..(free_until, 0) can never contain a record of a transaction >= free_until; the page-list record returns what was stored; the REAL free_if_unpersisted releases a page at once only when it is in the unpersisted set (allocated by a non-durable commit, so no durable root names it), removes it from that set together with the release, and otherwise changes nothing; when the mutator replaces a branch page by a copy (fragments of MutateHelper::apply_child_deletion_result: the proper-subtree case and the rebuild of an under-full leaf beside a single huge value) the original page is handed to conditional_free exactly once, and when the branch was updated in place nothing is released; the REAL MutateHelper::replace_branch_child never writes to a page this transaction did not allocate (a committed page, which a reader or a savepoint may still see, is copied instead); the REAL PageAllocator::conditional_free / free_if_uncommitted release a page at once only when this transaction allocated it since its last commit (no committed root can name it) and otherwise queue it, exactly once, for the commit without touching the allocator; free_helper (whole function) makes exactly the block's pages free in its region and touches neither the header, nor another region, nor the storage.",
     "not_decided": "the accounting equation over histories, readers and savepoints; conditional_free; the in-memory bookkeeping only BOUNDED (native, never counted as proved): UnpersistedState (allocations_after(t) returns exactly the allocations of later transactions, claim drops page and record together, data_freed_in_range / drop_data_freed_after bounds) and the TransactionTracker pin counts that define the oldest live reader",
 }
 P["C07"] = {
